@@ -112,7 +112,7 @@ def mk_item(spec):
             src, flow, pid = spec['ids']
             return Packet(0.0, 100, pid, src=src, flow_id=flow, payload=spec['u'])
         if spec.get('pi'):
-            return PriorityItem(spec['p'], spec['u'])
+            return PriorityItem(spec['p'], tuple(spec['u']) if isinstance(spec['u'], list) else spec['u'])
         return (spec['p'], spec['u'])
     if isinstance(spec, list):
         return tuple(spec)
@@ -128,7 +128,8 @@ def mk_filter(f):
     if isinstance(f, list):
         # matches one particular packet (by its unique payload)
         return lambda item, u=f[1]: isinstance(item, Packet) and item.payload == u
-    return lambda item: (isinstance(item, tuple) and item[0] == col) or (isinstance(item, Packet) and item.src == col)
+    return lambda item: (isinstance(item, tuple) and item[0] == col) or (isinstance(item, Packet) and item.src == col) or \
+        (isinstance(item, PriorityItem) and isinstance(item.item, tuple) and item.item[0] == col)
 
 
 def describe_cause(w, cause):
@@ -171,32 +172,58 @@ def use(w, pid, i, op):
     w.rec('Q', pid, i, rid, 'request', args, req.triggered)
     style = op.get('style', 'manual')
     phase = 'wait'
+    leave_exc = None
+    attempts = 0
     try:
         if style == 'with':
             req.__enter__()
-        if op.get('patience') is None:
-            yield req
-        else:
-            t = env.timeout(op['patience'])
-            r = yield req | t
-            if req not in r:
-                w.rec('S', pid, i, rid, 'gave-up', req.triggered)
-                raise _GiveUp()
+        while True:
+            try:
+                if op.get('patience') is None:
+                    yield req
+                else:
+                    t = env.timeout(op['patience'])
+                    r = yield req | t
+                    if req not in r:
+                        w.rec('S', pid, i, rid, 'gave-up', req.triggered)
+                        raise _GiveUp()
+                break
+            except Interrupt as e:
+                if op.get('on_intr') in ('rewait', 'release_rewait') and op.get('patience') is None and attempts < 3:
+                    # the victim goes on waiting for the very same request (optionally after a release() of the
+                    # still pending request, which is a release of a non-user: harmless)
+                    attempts += 1
+                    w.rec('S', pid, i, rid, 'intr', describe_cause(w, e.cause), 'rewait')
+                    if op['on_intr'] == 'release_rewait' and not req.triggered:
+                        before = w.snapshot()
+                        exc = None
+                        try:
+                            res.release(req)
+                        except Exception as e2:  # noqa
+                            exc = san(e2)
+                        w.rec('U', pid, i, rid, 'harmless-pending', before, w.snapshot(), exc)
+                    continue
+                raise
         w.rec('S', pid, i, rid, 'granted', req.usage_since)
         phase = 'hold'
         yield env.timeout(op.get('hold', 1))
         phase = 'done'
     except Interrupt as e:
+        leave_exc = e
         w.rec('S', pid, i, rid, 'intr', describe_cause(w, e.cause), phase)
-    except _GiveUp:
-        pass
+    except _GiveUp as e:
+        leave_exc = e
     # leave: with-exit / cancel / release
     before = w.snapshot()
     exc = None
     w.rec('U0', pid, i, rid, req.triggered)
     try:
         if style == 'with':
-            req.__exit__(None, None, None)
+            # the exception that ends the block travels through __exit__, as in a real with statement
+            if leave_exc is not None and op.get('exit_exc'):
+                req.__exit__(type(leave_exc), leave_exc, None)
+            else:
+                req.__exit__(None, None, None)
             what = 'with-exit'
         elif not req.triggered:
             req.cancel()
@@ -262,21 +289,33 @@ def putget(w, pid, i, op):
         w.pending_get.append(rid)
     w.rec('Q', pid, i, rid, k, args, req.triggered)
     style = op.get('style', 'manual')
+    leave_exc = None
+    attempts = 0
     try:
-        if op.get('patience') is None:
-            v = yield req
-        else:
-            t = env.timeout(op['patience'])
-            r = yield req | t
-            if req not in r:
-                w.rec('S', pid, i, rid, 'gave-up', req.triggered)
-                raise _GiveUp()
-            v = r[req]
+        while True:
+            try:
+                if op.get('patience') is None:
+                    v = yield req
+                else:
+                    t = env.timeout(op['patience'])
+                    r = yield req | t
+                    if req not in r:
+                        w.rec('S', pid, i, rid, 'gave-up', req.triggered)
+                        raise _GiveUp()
+                    v = r[req]
+                break
+            except Interrupt as e:
+                if op.get('on_intr') == 'rewait' and op.get('patience') is None and attempts < 3:
+                    attempts += 1
+                    w.rec('S', pid, i, rid, 'intr', describe_cause(w, e.cause), 'rewait')
+                    continue
+                raise
         w.rec('S', pid, i, rid, 'granted', item_uid(v) if (k == 'get' and w.kind != 'Container') else None)
     except Interrupt as e:
+        leave_exc = e
         w.rec('S', pid, i, rid, 'intr', describe_cause(w, e.cause), 'wait')
-    except _GiveUp:
-        pass
+    except _GiveUp as e:
+        leave_exc = e
     before = w.snapshot()
     exc = None
     what = 'none'
@@ -284,7 +323,10 @@ def putget(w, pid, i, op):
         w.rec('U0', pid, i, rid, req.triggered)
     try:
         if style == 'with':
-            req.__exit__(None, None, None)
+            if leave_exc is not None and op.get('exit_exc'):
+                req.__exit__(type(leave_exc), leave_exc, None)
+            else:
+                req.__exit__(None, None, None)
             what = 'with-exit'
         elif not req.triggered:
             req.cancel()
@@ -373,7 +415,8 @@ def gen_resource_case(rng, tier):
             else:
                 op = {'op': 'use', 'prio': rng.choice(prios), 'preempt': rng.random() < 0.6,
                       'patience': rng.choice([None, None, None, 0, 1, 2, 0.5]), 'hold': rng.choice(pool),
-                      'style': rng.choice(['manual', 'manual', 'with']), 'extra': []}
+                      'style': rng.choice(['manual', 'manual', 'with']), 'extra': [],
+                      'on_intr': rng.choice(['leave', 'leave', 'rewait', 'release_rewait']), 'exit_exc': rng.random() < 0.5}
                 if rng.random() < 0.15:
                     op['extra'].append('double')
                 if rng.random() < 0.08:
@@ -412,6 +455,8 @@ def gen_store_case(rng, tier):
         cap = rng.choice([None, 1, 2, 3, 4])
         init = 0
     pkt_items = kind == 'FilterStore' and rng.random() < 0.35
+    # PriorityItems (several of equal priority) held in a FilterStore: items are items, whatever their == says
+    pi_items = kind == 'FilterStore' and not pkt_items and rng.random() < 0.25
     made_pkts = []
     procs = []
     for p in range(nprocs):
@@ -424,7 +469,8 @@ def gen_store_case(rng, tier):
                 continue
             isput = rng.random() < bias
             op = {'op': 'put' if isput else 'get', 'patience': rng.choice([None, None, None, 0, 1, 2, 0.5]),
-                  'style': rng.choice(['manual', 'manual', 'manual', 'with'])}
+                  'style': rng.choice(['manual', 'manual', 'manual', 'with']),
+                  'on_intr': rng.choice(['leave', 'leave', 'rewait']), 'exit_exc': rng.random() < 0.5}
             if kind == 'Container':
                 op['amount'] = rng.choice(amounts)
             elif isput:
@@ -434,6 +480,8 @@ def gen_store_case(rng, tier):
                     u = nu()
                     op['item'] = {'pkt': True, 'ids': [rng.choice(['r', 'g', 'b']), rng.randint(0, 1), rng.randint(1, 2)], 'u': u}
                     made_pkts.append(u)
+                elif kind == 'FilterStore' and pi_items:
+                    op['item'] = {'pi': True, 'p': rng.choice([1, 1, 2]), 'u': [rng.choice(['r', 'g', 'b']), nu()]}
                 elif kind == 'FilterStore':
                     op['item'] = [rng.choice(['r', 'g', 'b']), nu()]
                 else:
